@@ -134,6 +134,10 @@ class LangServer:
         def noop(request: dict):
             return None
 
+        # A response object (the server sends no requests, so it answers nothing)
+        # or any other message without a method: ignore it
+        if "method" not in request:
+            return
         # Request handler
         log.debug("REQUEST %s %s", request.get("id"), request.get("method"))
         handler = {
